@@ -85,13 +85,13 @@ def fresh (st : GS) : Elt × GS := (st.nv, { st with nv := st.nv + 1 })
 def freshList (st : GS) (n : Nat) : List Elt × GS :=
   ((List.range n).map (fun i => st.nv + (Int.ofNat i)), { st with nv := st.nv + Int.ofNat n })
 
-/-- a value argument: an element of the array when that is safe (decided by `refOK`), else external -/
+/-- a value argument: an element of the array itself (one time in three) or an external value -/
 def pickRef (a : Arr) (st : GS) (mk : Ref → Op) : Gen (Op × GS) := do
   let wantSlot ← chance 1 3
   if wantSlot && a.size > 0 then
     let i ← rnd a.size
     let op := mk (.slot i)
-    if legal st.mx a op && refOK a op then return (op, st)
+    if legal st.mx a op then return (op, st)   -- any element may be passed: the repaired code copies it first
   let (v, st) := fresh st
   return (mk (.ext v), st)
 
@@ -203,8 +203,8 @@ partial def genNormal (out : IO.FS.Stream) (et : String) (mx : Nat) (big : Bool)
       let ((wop, st1), g1) := (genWOp st big).run g
       g := g1
       st := st1
-      if wlegal mx st.w wop && wrefOK st.w wop then
-        let w' := wstep mx st.w wop
+      if wlegal mx st.w wop then
+        let w' := wstepFixed mx st.w wop
         out.putStrLn (wopTok wop)
         out.putStrLn (obsTok w')
         st := { st with w := { w' with thrown := false } }
